@@ -51,6 +51,36 @@ CLAIMED = {
                 "case-insensitive file lookup are not part of the generated "
                 "graphs.",
     },
+    "C13": {
+        "ref": "DESIGN.md §4.6",
+        "technique": "deterministic simulation: seeded stateful sessions "
+                     "over the OS-facing built-ins on a simulated OS with "
+                     "faults injected inside operations",
+        "text": "PARTIAL: only the OS-facing slice of C13. Seeded search "
+                "over sessions of 5-40 operations on streams, files, "
+                "directories, processes, environment and clock built-ins in "
+                "a non-secure legacy interpreter against a simulated OS "
+                "(paths that are text/empty/non-UTF-8/directory/missing/"
+                "missing-parent/program; handles reused after close and "
+                "after failures; callbacks and loop bodies that raise; half "
+                "of the operations wrapped in catch-all), with open/read/"
+                "write/flush/close/metadata/process/stream/console faults "
+                "landing on the k-th system call inside an operation and "
+                "clock jumps between operations. Oracle: every operation "
+                "ends with a value or a runtime error carrying a language "
+                "value, catch-all intercepts it, no host exception or "
+                "syntax error leaves interpret, no non-termination, session "
+                "stays usable. The exhaustive sweep of every pure operator "
+                "and function over the value pool that the quantifier asks "
+                "for is input enumeration without any schedule or fault and "
+                "is NOT covered by this check.",
+        "note": "Trusted: the simulated OS (simckl/world.py) behaves like "
+                "the real one at the calls the interpreter makes (real-backed "
+                "files; process table stub; permission failures injected as "
+                "EACCES because the sandbox runs as root). Pure built-ins and "
+                "operators (1 % 0, ord(''), 'abc'['x'], ...) are outside the "
+                "claim; defects there are neither detected nor listed.",
+    },
     "C10": {
         "ref": "DESIGN.md §4.3",
         "technique": "deterministic simulation: seeded session histories "
@@ -80,7 +110,6 @@ CLAIMED = {
 PENDING = {
     "C09": "claimed in DESIGN.md §4.2; check not built yet",
     "C12": "claimed in DESIGN.md §4.5; check not built yet",
-    "C13": "claimed (OS-facing slice) in DESIGN.md §4.6; check not built yet",
 }
 
 
